@@ -249,6 +249,14 @@ def run_pair(engine, ops_text, with_model=True):
         # Engines whose scripts refer to run-time observations (`#k`-th request seen, random ids)
         # print one `!OP <resolved op>` line per op; the model then consumes the resolved script.
         resolved = [l[4:] for l in iout.splitlines() if l.startswith("!OP ")]
+        if engine == "handler" and resolved:
+            # The handler driver is told the implementation's reply to each step (behind `??`).  It
+            # consults it only to choose the serving order of request timers that are due at the
+            # same instant (decided inside tokio's timer wheel; both orders are behaviours of the
+            # code) - see Driver/HandlerDrv.lean.  Its answer is compared as usual.
+            replies = [l for l in iout.splitlines() if not l.startswith("!") and not l.startswith("#")]
+            if len(replies) == len(resolved):
+                resolved = [o + " ?? " + r if o.startswith(("hmulti", "hev")) else o for o, r in zip(resolved, replies)]
         model_in = ops_text
         if resolved:
             it = iter(resolved)
@@ -572,7 +580,10 @@ def check(prop, tier, seed, replay=None):
             m = re.search(r"engine=(\S+)", text.split("\n", 1)[0])
             if m:
                 eng = m.group(1)
+            text = "\n".join(l for l in text.splitlines() if l.strip()) + "\n"
             res = compare(eng, text, prop, drv_ok)
+            if "fatal" in res:
+                cerrors.append("replay could not be run: %s" % res["fatal"])
             for c, ml in res["monitors"]:
                 impl_fail.append((eng, text, c, ml))
             for d in res["disagree"]:
